@@ -4,6 +4,7 @@ The adversary of `PStep` may serve any request ever sent again, and deliver any 
 produced late, repeatedly, or never; the theorems hold in EVERY state it can reach.
 -/
 import Orda.Proofs.Protocol
+import Orda.Model.Wired
 namespace Orda.Props.C07
 open Orda
 
@@ -27,6 +28,16 @@ theorem retry_never_refused {cuids : List String} {S : PSys} (h : PReach cuids S
     (hr : r ∈ S.reqs) (hi : S.clients[r.i]? = some cl) :
     ∃ cp2 docs, pushOps pDuid pCol ⟨S.log.length, (S.recOf cl.cuid).cseq⟩ r.ops [] = .ok (cp2, docs) :=
   never_refused h hr hi
+
+/-- the subscribe exchange under the same adversary: the (delayed or duplicated) answer to an earlier
+    subscribe request that reaches a datatype which is subscribed already changes NOTHING (state, buffer,
+    checkpoint, identifiers) and calls no handler — the `PStep` system above models subscribed clients, this
+    closes the entry phase (defect D33: the implementation used to reset the datatype here) -/
+theorem stale_subscribe_response_ignored (w : WDt) (p : Pack) (he : p.error = false) (hs : p.subscribe = true)
+    (h1 : w.dstate ≠ .dueToSubscribe) (h2 : w.dstate ≠ .dueToSubscribeCreate) :
+    w.applyPack p = (w, [], none) := by
+  unfold WDt.applyPack
+  simp [he, hs, h1, h2]
 
 /-- non-vacuity: the classic scenario (response lost, another client pushes in between, retry, the lost
     response arrives late, the first request is served again) is reachable -/
